@@ -1,7 +1,7 @@
 """Property -> rules.  The explanation/assumption texts end up in the evidence files."""
 from .rules import dtype, evalnodes, executor, aggregates, eqfaith, compiler_rules as cr
 from .rules import cursor_rules as cu, library_rules as lib, state_rules as st, grammar_rules as gr
-from .rules import table_rules as tb, clause_rules as cl, sx_exec as sx, sx_cursor as sxc, sx_compiler as sxk, sx_select as sxs, sx_pivot as sxp
+from .rules import table_rules as tb, clause_rules as cl, sx_exec as sx, sx_cursor as sxc, sx_compiler as sxk, sx_select as sxs, sx_pivot as sxp, sx_tables as sxt, sx_numberify as sxn
 
 TRUSTED_ABSINT = [
     "Python/library semantics of operators, attributes, methods and whitelisted callables are obtained by applying "
@@ -222,7 +222,7 @@ PROPS = {
             "bound to the same index/name/dtype and rows are produced one per input row with converters in column order "
             "(R-IDENTITY). Does not decide that get_currency_units sums lots nor numeric equality after quantisation."),
         'assumptions': TRUSTED_STRUCT + TRUSTED_ABSINT[:1],
-        'quick': [lib.rule_siblings, lib.rule_numberify_null, lib.rule_identity],
+        'quick': [sxn.rule_siblings, lib.rule_numberify_null, sxn.rule_identity],
         'thorough': [],
     },
     'C18': {
@@ -278,7 +278,7 @@ PROPS = {
             "(R-METAREWRITE); getitem NULL-propagating (R-NULLSTRICT). Does not decide that beancount's getters and "
             "convert functions compute what their names say."),
         'assumptions': TRUSTED_STRUCT + TRUSTED_ABSINT[:2],
-        'quick': [tb.rule_accesspath, tb.rule_rowgen, tb.rule_tablefields, tb.rule_metarewrite, dtype.rule_dtype_columns,
+        'quick': [tb.rule_accesspath, sxt.rule_rowgen, tb.rule_tablefields, tb.rule_metarewrite, dtype.rule_dtype_columns,
                   dtype.rule_typesafe_columns],
         'thorough': [],
     },
